@@ -10,6 +10,7 @@ import (
 	"net/http/httptest"
 	"os"
 	"path/filepath"
+	"runtime"
 	"strconv"
 	"strings"
 	"testing"
@@ -44,6 +45,9 @@ type ReplayFile struct {
 	Hash     uint64    `json:"hash"`
 	Trace    []string  `json:"trace"`
 	Shrink   string    `json:"shrink,omitempty"`
+	// GoArch: the platform the run was executed on when it is not the 64-bit default (a slice of the runs of
+	// some properties is executed by a GOARCH=386 build of the simulator); the driver replays on the same one.
+	GoArch string `json:"goarch,omitempty"`
 }
 
 // WorkerOut is what one worker process reports to the driver.
@@ -354,11 +358,19 @@ func writeReplay(t *testing.T, dir string, sc *Scenario, v *Violation, note stri
 		Scenario: pinSchedule(sc, out), Hash: out.Hash, Trace: out.Trace, Shrink: note,
 	}
 
+	if runtime.GOARCH != "amd64" {
+		rf.GoArch = runtime.GOARCH
+	}
+
 	if err := os.MkdirAll(dir, 0o755); err != nil {
 		return "", err
 	}
 
 	name := fmt.Sprintf("%s-%d-%d-%x.json", strings.ReplaceAll(vv.Rule, ".", "_"), sc.Seed, sc.Run, zs.HashString(vv.Sig)&0xffff)
+	if rf.GoArch != "" {
+		name = strings.TrimSuffix(name, ".json") + "-" + rf.GoArch + ".json"
+	}
+
 	path := filepath.Join(dir, name)
 
 	b, _ := json.MarshalIndent(rf, "", " ")
